@@ -116,7 +116,7 @@ def verify_not_refused(f):
 
 def codec_mismatch(f):
     """C15: decode verdict / re-encoding differs from the specification on the real crates"""
-    o = run_replay(f.cfg, 1)
+    o = run_replay(f.detail.get('replay_cfg', f.cfg), 1)
     if 'crash' in o:
         return None, o
     exp = f.detail.get('expect_decode')
@@ -423,6 +423,66 @@ def wrong_seed_topbyte(f):
         if v['result'] == 'ok' and v['masks'][0] == o['members'][0]['blindings'][0]:
             bad.append({'mask': v['masks'][0]})
     return (len(bad) == 3), bad[:1]
+
+
+def prover_guard_mismatch(f):
+    """C06 (Engine M counterexample): for the concrete (bit length, value, promise) of the solver model the real prover's accept/refuse
+    decision differs from the witness relation  promise <= value < 2^bits"""
+    c = f.cfg
+    n, v, p = c['n'], c['v'], c.get('p')
+    if n not in (1, 2, 4, 8, 16, 32, 64):
+        return None, 'model bit length %s is not constructible' % n
+    valid = (n >= 64 or v < (1 << n)) and (p is None or p <= v)
+    mem = {'m': 1, 'cap': 1, 'values': [str(v)], 'promises': [str(p) if p is not None else None]}
+    bad = []
+    for seed in (1, 2):
+        o = run_replay({'scenario': 'batch', 'n': n, 'x': 1, 'members': [mem], 'prove_only': True}, seed)
+        if 'crash' in o:
+            return None, o
+        got = o['prove'][0]['result'] == 'ok'
+        if got != valid:
+            bad.append({'bits': n, 'value': v, 'promise': p, 'witness_valid': valid, 'prover': o['prove'][0]['result']})
+    return (len(bad) == 2), bad[:1]
+
+
+def ctor_mismatch(f):
+    """C17 (Engine M counterexample / sweep): a constructor's verdict on concrete arguments differs from its documented domain"""
+    c = f.detail.get('replay_cfg') or f.cfg
+    if c is None:
+        return None, 'no concrete arguments'
+    o = run_replay(c, 1)
+    if isinstance(o, dict) and 'crash' in o:
+        return True, o
+    want = ctor_spec(c)
+    if want is None:
+        return None, 'no specification for %s' % c.get('fn')
+    got = 'panic' if o == 'panic' else ('ok' if isinstance(o, dict) and 'ok' in o else ('skip' if isinstance(o, dict) and 'skip' in o else 'err'))
+    if got == 'skip':
+        return None, o
+    if got != ('ok' if want else 'err'):
+        return True, {'arguments': c, 'constructor': o, 'documented_domain_says': 'accept' if want else 'refuse'}
+    return False, o
+
+
+def ctor_spec(c):
+    """the documented domains of the constructors (from the property statement)"""
+    pow2 = lambda x: x > 0 and (x & (x - 1)) == 0
+    f = c['fn']
+    if f in ('ext_u8', 'ext_usize'):
+        return 1 <= c['v'] <= 6
+    if f == 'params':
+        return pow2(c['bit_length']) and c['bit_length'] <= 64 and pow2(c['cap'])
+    if f == 'statement':
+        nc = c['commitments']
+        return pow2(nc) and c['promises'] == nc and nc <= c['cap'] and not (c.get('seeded') and nc > 1)
+    if f == 'witness':
+        b = c['blindings']
+        return len(b) >= 1 and all(x == b[0] for x in b) and 1 <= b[0] <= 6
+    if f == 'mask':
+        return c['len'] == c['degree'] and 1 <= c['degree'] <= 6
+    if f == 'commit':
+        return 1 <= c['len'] <= c['degree']
+    return None
 
 
 def relation_disagrees(f):
